@@ -20,7 +20,7 @@ Clauses(rec) ==
   \cup If(i.kind = "range" /\ i.origin # 0 /\ r.status = "ok" /\ ~ExactPrefix(i, r.heights), "C10_ok_is_exactly_origin_origin_plus_1_in_order")
   \cup If(i.kind = "range" /\ i.origin # 0 /\ ~BoundedWork(i, r.spans), "C10_reads_no_more_than_the_requested_heights")
   \cup If(Len(r.heights) > MaxReq \/ rec.reads > 4 * MaxReq + 16, "C10_never_more_than_MaxRangeRequestSize_headers")
-  \cup If(i.kind = "range" /\ i.origin = 0 /\ i.amount = 1 /\ ~(r.status = "ok" /\ r.heights = <<i.head>>), "C10_head_request_returns_current_head")
+  \cup If(i.kind = "range" /\ i.origin = 0 /\ i.amount # 0 /\ ~(r.status = "ok" /\ r.heights = <<i.head>>), "C10_head_request_returns_current_head")
   \cup If(i.kind = "range" /\ i.origin = 0 /\ r.status = "ok" /\ r.heights # <<i.head>>, "C10_head_request_returns_current_head")
   \cup If(i.kind = "hash" /\ i.hk = "known" /\ ~(r.status = "ok" /\ r.heights = <<i.tail + 1>>), "C10_hash_request_returns_that_header")
   \cup If(i.kind = "hash" /\ i.hk # "known" /\ r.status = "ok", "C10_hash_request_returns_that_header")
